@@ -262,6 +262,7 @@ fn roles_of(name: &str) -> Option<Roles> {
         "Flat2" => roles!(-, -, Flat2, -),
         "OrderedAM" => roles!(OrderedAMUdt, OrderedAMUdt, -, -),
         "NameAM" => roles!(NameAMUdt, NameAMUdt, -, -),
+        "OrderedAMDN" => roles!(OrderedAMDNSer, OrderedAMDNDe, -, -),
         "OrderedRenamedSkip" => roles!(OrderedRenamedSkip),
         _ => return None,
     })
@@ -284,6 +285,7 @@ pub const STRUCT_NAMES: &[&str] = &[
     "Flat2",
     "OrderedAM",
     "NameAM",
+    "OrderedAMDN",
     "OrderedRenamedSkip",
 ];
 
